@@ -133,14 +133,16 @@ captured_sink = Fn(U, 'captured_sink', ret='r', pre_rewrites=RW,
     hints={})
 cap_out = Fn(U, 'print_stdout_with_capture', pre_rewrites=RW, add_params='Tracked(k): Tracked<&mut Kernel>', ghost_args=dict(GA, print_stdout='Tracked(k)'),
     requires=[('C05.pre.bfd.len6', '!old(k).fds.contains_key(-1) && cmd.redirects_to@.len() < 0x7fff_ffff')],
-    ensures=[('C04+C11.bfd.output_of_a_captured_builtin_goes_where_its_redirections_send_it',
+    ensures=[('C03+C11.bfd.printing_a_result_sets_status_0_captured_or_not', 'final(cr).status == 0'),
+             ('C04+C11.bfd.output_of_a_captured_builtin_goes_where_its_redirections_send_it',
               'if !capture { final(cr).stdout@ == old(cr).stdout@ && final(cr).stderr@ == old(cr).stderr@ } else { match sink_of(*cmd, "1"@) { '
               'Sink::Out => final(cr).stdout@ == info@ && final(cr).stderr@ == old(cr).stderr@ && final(k).fds == old(k).fds, '
               'Sink::Err => final(cr).stderr@ == info@ && final(cr).stdout@ == old(cr).stdout@ && final(k).fds == old(k).fds, '
               'Sink::Elsewhere => final(cr).stdout@ == old(cr).stdout@ && final(cr).stderr@ == old(cr).stderr@ } }')])
 cap_err = Fn(U, 'print_stderr_with_capture', pre_rewrites=RW, add_params='Tracked(k): Tracked<&mut Kernel>', ghost_args=dict(GA, print_stderr='Tracked(k)'),
     requires=[('C05.pre.bfd.len7', '!old(k).fds.contains_key(-1) && cmd.redirects_to@.len() < 0x7fff_ffff')],
-    ensures=[('C04+C11.bfd.error_output_of_a_captured_builtin_goes_where_its_redirections_send_it',
+    ensures=[('C03+C11.bfd.a_failing_builtin_reports_status_1_captured_or_not', 'final(cr).status == 1'),
+             ('C04+C11.bfd.error_output_of_a_captured_builtin_goes_where_its_redirections_send_it',
               'if !capture { final(cr).stdout@ == old(cr).stdout@ && final(cr).stderr@ == old(cr).stderr@ } else { match sink_of(*cmd, "2"@) { '
               'Sink::Out => final(cr).stdout@ == info@ && final(cr).stderr@ == old(cr).stderr@ && final(k).fds == old(k).fds, '
               'Sink::Err => final(cr).stderr@ == info@ && final(cr).stdout@ == old(cr).stdout@ && final(k).fds == old(k).fds, '
